@@ -160,34 +160,7 @@ func TestC07(t *testing.T) {
 			}
 		}
 	}
-	for _, op := range cmpOps {
-		for _, mode := range []string{"safe", "safe-same", "unsafe", "reuse-same"} {
-			op, mode := op, mode
-			cell(t, "C07", "EW", "one-element/"+op+"/"+mode, nCases(12, 120), func(rt *rapid.T) Case {
-				d := rapid.SampledFrom([]DT{dtInt32, dtF64, dtUint8}).Draw(rt, "dt")
-				form := rapid.SampledFrom([]string{"TT", "TS", "ST"}).Draw(rt, "form")
-				c := genCmpMode(rt, "C07", op, d, form, rapid.SampledFrom([]string{"pkg", "method"}).Draw(rt, "via"), mode)
-				shape := rapid.SampledFrom([][]int{{1}, {1, 1}, {1, 1, 1}}).Draw(rt, "shape")
-				c.A = genOpnd(rt, shape, "contig", 0, 2, 0, "a1")
-				if c.B != nil {
-					b := genOpnd(rt, shape, "contig", 0, 2, 0, "b1")
-					c.B = &b
-				} else {
-					c.Scalar = rapid.Int64Range(0, 2).Draw(rt, "s1")
-				}
-				if c.Dst != nil {
-					dd := *c.Dst
-					dd.Shape, dd.Codes, dd.L = shape, []int64{5}, Layout{Root: "rm"}
-					c.Dst = &dd
-				}
-				if inF54(c) {
-					rec.Class("excluded:F54")
-					c.Form = "TS"
-				}
-				return c
-			})
-		}
-	}
+	oneElementCmpCells(t, "C07")
 	for _, op := range cmpOps {
 		for _, d := range c07DTs() {
 			if !opSupports("cmp", op, d) {
@@ -267,6 +240,7 @@ func TestC11(t *testing.T) {
 			}
 		}
 	}
+	oneElementCmpCells(t, "C11")
 	// refusals: unordered element types for the order comparisons, mismatched element types and shapes
 	for _, op := range cmpOps {
 		op := op
@@ -331,4 +305,37 @@ func inF17(c *EWCase) bool { return c.Mode == "incr" && prod(c.A.Shape) == 1 }
 // inF54: a comparison with the scalar on the left, done in place (UseUnsafe) on a one-element tensor.
 func inF54(c *EWCase) bool {
 	return c.Fam == "cmp" && c.Form == "ST" && c.Mode == "unsafe" && prod(c.A.Shape) == 1
+}
+
+// oneElementCmpCells: comparisons on tensors with exactly one element (shapes (1), (1,1), (1,1,1)),
+// which the engine routes through special cases; values from {0,1,2} so that equal pairs are frequent.
+func oneElementCmpCells(t *testing.T, prop string) {
+	for _, op := range cmpOps {
+		for _, mode := range []string{"safe", "safe-same", "unsafe", "reuse", "reuse-same"} {
+			op, mode := op, mode
+			cell(t, prop, "EW", "one-element/"+op+"/"+mode, nCases(12, 120), func(rt *rapid.T) Case {
+				d := rapid.SampledFrom([]DT{dtInt32, dtF64, dtUint8, dtInt64, dtF32}).Draw(rt, "dt")
+				form := rapid.SampledFrom([]string{"TT", "TS", "ST"}).Draw(rt, "form")
+				c := genCmpMode(rt, prop, op, d, form, rapid.SampledFrom([]string{"pkg", "method"}).Draw(rt, "via"), mode)
+				shape := rapid.SampledFrom([][]int{{1}, {1, 1}, {1, 1, 1}}).Draw(rt, "shape")
+				c.A = genOpnd(rt, shape, "contig", 0, 2, 0, "a1")
+				if c.B != nil {
+					b := genOpnd(rt, shape, "contig", 0, 2, 0, "b1")
+					c.B = &b
+				} else {
+					c.Scalar = rapid.Int64Range(0, 2).Draw(rt, "s1")
+				}
+				if c.Dst != nil {
+					dd := *c.Dst
+					dd.Shape, dd.Codes, dd.L = shape, []int64{5}, Layout{Root: "rm"}
+					c.Dst = &dd
+				}
+				if inF54(c) {
+					rec.Class("excluded:F54")
+					c.Form = "TS"
+				}
+				return c
+			})
+		}
+	}
 }
